@@ -2,6 +2,7 @@ import Ark.Proofs.Table
 import Ark.Proofs.Rejects
 import Ark.Generated.FactsEvents
 import Ark.Props.C06Hist
+import Ark.Props.C06Rel
 
 namespace Ark.Props.C06
 open Ark
@@ -103,5 +104,42 @@ theorem hist_exchangeBatch_eq_singles : type_of% @Ark.Props.C06Hist.exchangeBatc
 
 /-- batch creation = single creations at every reachable state -/
 theorem hist_newBatch_eq_singles : type_of% @Ark.Props.C06Hist.newBatch_eq_singles := @Ark.Props.C06Hist.newBatch_eq_singles
+
+
+/-! ### With relation targets (Props/C06Rel): batch removal of entities that are relation targets, SetRelationsBatch -/
+
+/-- the batch never fails and removes exactly the rows of the selected tables, also when relation targets are among the removed: every selected entity is dead, every other entity keeps liveness, components and values, and its targets are unchanged except that a removed target reads as the zero entity -/
+theorem rel_removeEntities_rel_spec : type_of% @Ark.Props.C06Rel.removeEntities_rel_spec := @Ark.Props.C06Rel.removeEntities_rel_spec
+
+/-- the selected entities are exactly the alive entities that match the filter and its relation targets -/
+theorem rel_selected_iff_alive_matching : type_of% @Ark.Props.C06Rel.selected_iff_alive_matching := @Ark.Props.C06Rel.selected_iff_alive_matching
+
+/-- **C06 with relation targets among the removed**: batch and singles in the batch's order both succeed, satisfy the same postcondition, and even their entity pools are equal -/
+theorem rel_removeEntities_rel_eq_singles : type_of% @Ark.Props.C06Rel.removeEntities_rel_eq_singles := @Ark.Props.C06Rel.removeEntities_rel_eq_singles
+
+/-- order independence: the singles in ANY order give the same Alive, components, values and relation targets as the batch -/
+theorem rel_removeEntities_rel_any_order : type_of% @Ark.Props.C06Rel.removeEntities_rel_any_order := @Ark.Props.C06Rel.removeEntities_rel_any_order
+
+/-- SetRelationsBatch: a table whose targets the assignment does not change is skipped (world untouched) -/
+theorem rel_unchanged_table_skipped : type_of% @Ark.Props.C06Rel.unchanged_table_skipped := @Ark.Props.C06Rel.unchanged_table_skipped
+
+/-- … and only such a table -/
+theorem rel_changed_table_moves : type_of% @Ark.Props.C06Rel.changed_table_moves := @Ark.Props.C06Rel.changed_table_moves
+
+/-- SetRelationsBatch never fails for a valid call and assigns exactly the targets named to exactly the selected entities -/
+theorem rel_setRelationsBatch_spec : type_of% @Ark.Props.C06Rel.setRelationsBatch_spec := @Ark.Props.C06Rel.setRelationsBatch_spec
+
+/-- **SetRelationsBatch = the fold of SetRelations** over the selected entities in ANY order -/
+theorem rel_setRelationsBatch_eq_fold : type_of% @Ark.Props.C06Rel.setRelationsBatch_eq_fold := @Ark.Props.C06Rel.setRelationsBatch_eq_fold
+
+/-- after every history (single operations, queries, both batches): batch removal = single removals in any order, never failing, also when relation targets are removed -/
+theorem rel_removeEntities_after_every_history : type_of% @Ark.Props.C06Rel.removeEntities_after_every_history := @Ark.Props.C06Rel.removeEntities_after_every_history
+
+/-- … and batch assignment = single assignments in any order -/
+theorem rel_setRelationsBatch_after_every_history : type_of% @Ark.Props.C06Rel.setRelationsBatch_after_every_history := @Ark.Props.C06Rel.setRelationsBatch_after_every_history
+
+/-- C03 still holds after batches: a query visits exactly the alive matching entities -/
+theorem rel_query_after_every_history : type_of% @Ark.Props.C06Rel.query_after_every_history := @Ark.Props.C06Rel.query_after_every_history
+
 
 end Ark.Props.C06
